@@ -2,7 +2,10 @@ module verifharness
 
 go 1.26
 
-require github.com/gauss-project/aurorafs v0.0.0
+require (
+	github.com/anishathalye/porcupine v1.3.0
+	github.com/gauss-project/aurorafs v0.0.0
+)
 
 require (
 	github.com/beorn7/perks v1.0.1 // indirect
